@@ -77,7 +77,7 @@ pub fn gen_case(t: &mut Tape) -> Case {
                     p.vt = VT::I32;
                 }
             }
-            Method { name: format!("m{i}"), tag: format!("M{i}"), is_async: any_async && t.chance(2, 3), params, has_gen: false, uses_u: false }
+            Method { name: format!("m{i}"), tag: format!("M{i}"), is_async: any_async && t.chance(2, 3), params, has_gen: false, uses_u: false, typed_receiver: false }
         };
         methods.push(m);
     }
